@@ -85,8 +85,8 @@ fn engine_initial(init: &[(&'static str, Option<Value>)]) -> Context {
     c.set_func("snd", snd_engine());
     for (k, v) in init {
         match v {
-            Some(v) => c.set_variable(k, v.clone()),
-            None => c.set_func(k, seven_engine()),
+            Some(v) => { let _ = c.set_variable(k, v.clone()); }
+            None => { let _ = c.set_func(k, seven_engine()); }
         }
     }
     c
